@@ -30,7 +30,8 @@ TRAD = {"CFS", "GPM", "MGD", "IMGD", "AFD"}
 
 # networks whose features both engines support and whose hydraulics are well conditioned (no disconnected demand, no
 # threshold ties): the agreement checks are restricted to them; the reader validation uses every INP file EPANET accepts
-COMMON = ["builtin:net1_noon_rule", "builtin:net1_pressure_control", "builtin:head_pattern_with_pattern_start", "examples/networks/Net1.inp", "examples/networks/Net2.inp", "examples/networks/Net3.inp",
+COMMON = ["builtin:net1_noon_rule", "builtin:net1_pressure_control", "builtin:head_pattern_with_pattern_start", "builtin:tcv_setting_control", "builtin:open_valves_FCV",
+          "builtin:open_valves_PRV", "builtin:open_valves_TCV", "builtin:rule_two_else_actions", "builtin:low_head_tcv", "examples/networks/Net1.inp", "examples/networks/Net2.inp", "examples/networks/Net3.inp",
           "wntr/tests/networks_for_testing/Todini_Fig2_optCost_CMH.inp", "wntr/tests/networks_for_testing/Todini_Fig2_optCost_GPM.inp",
           "wntr/tests/networks_for_testing/Todini_Fig2_solA_CMH.inp", "wntr/tests/networks_for_testing/Todini_Fig2_solA_GPM.inp",
           "wntr/tests/networks_for_testing/conditional_controls_1.inp", "wntr/tests/networks_for_testing/leaks.inp",
@@ -42,6 +43,10 @@ UNIT_NETS = ["builtin:gpv", "builtin:pbv"] + COMMON + ["wntr/tests/networks_for_
                       "wntr/tests/networks_for_testing/conditional_controls_2.inp", "wntr/tests/networks_for_testing/control_comb.inp",
                       "wntr/tests/networks_for_testing/io.inp", "wntr/tests/networks_for_testing/time_controls.inp",
                       "wntr/tests/networks_for_testing/tank_controls_1.inp"]
+# EPANET 2.2 itself does not satisfy its pressure-demand relation here: behind a strongly throttled TCV (setting 800) it reports the FULL demand at
+# 5-15 m of pressure with a required pressure of 20 m (demand deficit 0 in its own statistics) - its flow-change convergence test stops before the
+# demand has adapted; WNTR's result satisfies d = D*sqrt(p/Preq) (C07, proved). Compared under DD only.
+PDD_SKIP = {"builtin:tcv_setting_control"}
 KEYS = (("node", "head"), ("node", "pressure"), ("node", "demand"), ("link", "flowrate"), ("link", "status"))
 
 
@@ -82,6 +87,36 @@ def _builtin(name):
         wn.options.time.duration = 8 * 3600
         wn.options.time.pattern_timestep = 3600
         wn.options.time.pattern_start = 7200
+        return wn
+    if name in ("tcv_setting_control", "rule_two_else_actions", "low_head_tcv") or name.startswith("open_valves_"):
+        from wntr.network.controls import Rule, Control, ControlAction, SimTimeCondition
+        wn = wntr.network.WaterNetworkModel()
+        wn.add_pattern("dp", [1.0, 0.6, 1.4, 0.8])
+        wn.add_reservoir("R", base_head=60)
+        wn.add_junction("A", base_demand=0.005, elevation=0, demand_pattern="dp")
+        wn.add_junction("B", base_demand=0.015, elevation=5, demand_pattern="dp")
+        wn.add_junction("C", base_demand=0.01, elevation=2)
+        wn.add_pipe("RA", "R", "A", length=200, diameter=0.3, roughness=100)
+        wn.add_pipe("BC", "B", "C", length=150, diameter=0.25, roughness=110)
+        wn.options.time.duration = 6 * 3600
+        wn.options.time.pattern_timestep = 3600
+        if name == "low_head_tcv":             # pressures between 0 and the required 20 m: the pressure-demand relation is active at every junction
+            wn.get_node("R").base_head = 22.0
+            wn.add_valve("V", "A", "B", diameter=0.2, valve_type="TCV", initial_setting=20.0)
+        elif name == "tcv_setting_control":      # a throttle valve whose loss coefficient is changed by a control in mid-run
+            wn.add_valve("V", "A", "B", diameter=0.2, valve_type="TCV", initial_setting=20.0)
+            wn.add_control("throttle", Control._time_control(wn, 2 * 3600, "SIM_TIME", False, ControlAction(wn.get_link("V"), "setting", 800.0)))
+            wn.add_control("release", Control._time_control(wn, 4 * 3600, "SIM_TIME", False, ControlAction(wn.get_link("V"), "setting", 3.0)))
+        elif name.startswith("open_valves_"):  # a valve whose initial status is Open (fully open, its setting ignored) beside a pipe
+            vt = name[-3:]
+            wn.add_pipe("AB", "A", "B", length=400, diameter=0.15, roughness=100)
+            wn.add_valve("V", "A", "B", diameter=0.2, valve_type=vt, initial_setting={"FCV": 0.004, "PRV": 20.0, "TCV": 500.0}[vt], initial_status="OPEN")
+        else:                                  # a rule with two THEN and two ELSE actions on a parallel pair
+            wn.add_pipe("P1", "A", "B", length=300, diameter=0.2, roughness=100)
+            wn.add_pipe("P2", "A", "B", length=300, diameter=0.12, roughness=100)
+            p1, p2 = wn.get_link("P1"), wn.get_link("P2")
+            wn.add_control("swap", Rule(SimTimeCondition(wn, ">=", 3 * 3600), [ControlAction(p1, "status", 0), ControlAction(p2, "status", 1)],
+                                        [ControlAction(p1, "status", 1), ControlAction(p2, "status", 0)], name="swap"))
         return wn
     wn = wntr.network.WaterNetworkModel()
     wn.add_reservoir("R", base_head=50)
@@ -269,11 +304,18 @@ def reader_validation(tier, seed, shard, nshards):
     files = [f for f in files if os.path.getsize(f) < (400000 if tier == "quick" else 5000000) and not os.path.basename(f).startswith("bad_")]
     TOL = 3e-4        # text precision of the INP file WNTR writes (Net6: 1e-4)
     evals, distinct, failures, samples, skipped = 0, set(), [], [], []
+    # INP texts for features no file of the repository carries (written by WNTR from API-built models; the text is then the original)
+    texts = ["builtin:rule_two_else_actions", "builtin:tcv_setting_control", "builtin:open_valves_FCV", "builtin:open_valves_PRV", "builtin:open_valves_TCV"]
     with Scratch() as d:
+        for j, b in enumerate(texts):
+            path = os.path.join(d, "text_%s.inp" % b[8:])
+            if (len(files) + j) % nshards == shard:
+                wntr.network.io.write_inpfile(_builtin(b[8:]), path, units="LPS" if j % 2 else "GPM")
+            files.append(path)
         for i, f in enumerate(files):
             if i % nshards != shard:
                 continue
-            rel = os.path.relpath(f, root)
+            rel = os.path.relpath(f, root) if f.startswith(root) else "written from " + os.path.basename(f)[5:-4]
             pre = os.path.join(d, "r%d" % i)
             try:
                 en = tk.ENepanet(version=2.2)
@@ -319,6 +361,8 @@ def wntr_vs_epanet(tier, seed, shard, nshards):
             if i % nshards != shard:
                 continue
             for dm in ("DD", "PDD"):
+                if dm == "PDD" and rel in PDD_SKIP:
+                    continue
                 wn = _load(rel)
                 wn.options.hydraulic.demand_model = dm
                 if dm == "PDD":
@@ -352,7 +396,7 @@ def wntr_vs_epanet(tier, seed, shard, nshards):
                     samples.append(dict(net=rel, demand_model=dm, worst=ws))
     out = _result(evals, distinct, failures, samples,
                    "shard %d/%d: %d networks of the common feature set x {DD, PDD (required pressure 20 m)}: WNTRSimulator vs EpanetSimulator at every "
-                   "report step; heads, pressures, demands, flows rel. DD %.0e / PDD %.0e of full scale, link statuses exact"
-                   % (shard, nshards, len(nets), TOL["DD"], TOL["PDD"]))
+                   "report step; heads, pressures, demands, flows rel. DD %.0e / PDD %.0e of full scale, link statuses exact; DD only for %s (EPANET's own PDA result "
+                   "violates its pressure-demand relation there)" % (shard, nshards, len(nets), TOL["DD"], TOL["PDD"], ", ".join(sorted(PDD_SKIP))))
     out["known"] = sorted(set(known))
     return out
